@@ -21,7 +21,7 @@ from pathlib import Path
 
 VERIF = Path(__file__).resolve().parent.parent
 LEAN = VERIF / "lean"
-REPO = Path("/repo")
+REPO = Path(os.environ.get("SPLINK_REPO", "/repo"))
 DRV = LEAN / ".lake" / "build" / "bin" / "drv"
 STD_AXIOMS = {"propext", "Classical.choice", "Quot.sound"}
 FORBIDDEN = re.compile(
@@ -107,7 +107,7 @@ def impl_error(r) -> bool:
     A harness bug must never be reported as a violation: it raises HarnessError (exit 2)."""
     if not (isinstance(r, dict) and "__error__" in r):
         return False
-    if 'File "/repo/' in r.get("tb", ""):
+    if f'File "{REPO}/' in r.get("tb", ""):
         return True
     raise HarnessError(f"harness-side exception {r['__error__']}: {r['text'][:500]}\n{r.get('tb', '')[-1500:]}")
 
@@ -470,8 +470,10 @@ class Ctx:
             "wall_s": round(wall, 2),
             "violations": len(seen),
         }
-        (VERIF / "evidence").mkdir(exist_ok=True)
-        (VERIF / "evidence" / f"{self.prop}.json").write_text(json.dumps(ev, indent=1, default=str))
+        # runs against a scratch worktree (seeded-change experiments) must not overwrite the committed evidence
+        ev_dir = VERIF / "evidence" if str(REPO) == "/repo" else VERIF / ".scratch" / "evidence_seeded"
+        ev_dir.mkdir(parents=True, exist_ok=True)
+        (ev_dir / f"{self.prop}.json").write_text(json.dumps(ev, indent=1, default=str))
         print(
             f"[{self.prop}] tier={self.tier} seed={self.seed} obligations={cov['obligations']} discharged={cov['discharged']} "
             f"evaluations={self.evaluations} nontrivial={len(self.nontrivial)} violations={len(seen)} "
